@@ -209,7 +209,7 @@ def main(tier):
     xprop.note_sources(run, ['src/gambit/util/indexing.py', 'src/gambit/sigs/base.py'])
     run.bounds = {'K': 'index arrays of 1..2 (quick) / 3 (thorough) entries, all 8 integer dtypes, every value; collection length 0 <= n < 2^31; scalar indices of every dtype and python ints',
                   'X': 'see obligations'}
-    run.outside = ['HDF5Signatures (h5py datasets)', 'index arrays with more entries than the bound (entries are processed independently)']
+    run.outside = ['index arrays with more entries than the bound (entries are processed independently)', 'collections larger than 4 in the X part']
     run.assumptions = ['numpy model: element-wise comparison with a scalar, ndarray.copy/astype, np.add(a, n, out=a, where=mask) casting to the dtype of out (validated against real numpy on boundary values)',
                        'the abstract methods __len__/_getitem_int/_getitem_int_array are recording stubs']
     return run.finish(
